@@ -165,6 +165,12 @@ pub fn dt_invariant(cyc: &Cycle, d: &DateTime) -> Result<(), String> {
     Ok(())
 }
 
+thread_local! {
+    static REUSED_BUF: std::cell::Cell<[Option<FoundDateTimeKind>; 12]> = const { std::cell::Cell::new([None; 12]) };
+    /// results of the previous search of this thread (C17: prefill for the next buffers)
+    static PREV_RESULTS: std::cell::RefCell<Vec<Option<FoundDateTimeKind>>> = const { std::cell::RefCell::new(Vec::new()) };
+}
+
 const STALE_MARK: i64 = -777_777;
 
 fn stale_entry() -> Option<FoundDateTimeKind> {
@@ -268,8 +274,9 @@ pub fn check_search(ctx: &Ctx, z: &MZone, zr: TimeZoneRef<'_>, f: &Fields, sweep
         }
     };
 
-    // ---- run the implementation (allocation-free entry point)
-    let mut buf: [Option<FoundDateTimeKind>; 12] = [None; 12];
+    // ---- run the implementation (allocation-free entry point). The buffer is reused across all searches of this thread and
+    // never cleared (the documented way of using find_n): stale entries of earlier searches stay behind the written prefix.
+    let mut buf: [Option<FoundDateTimeKind>; 12] = REUSED_BUF.with(|b| b.get());
     let res = DateTime::find_n(&mut buf, f.y, f.mo, f.d, f.h, f.mi, f.s, f.ns, zr);
     let list = match res {
         Ok(l) => l,
@@ -287,6 +294,9 @@ pub fn check_search(ctx: &Ctx, z: &MZone, zr: TimeZoneRef<'_>, f: &Fields, sweep
         return;
     }
     let got: Vec<FoundDateTimeKind> = list.data().iter().map(|x| x.expect("written slot")).collect();
+    let (l_unique, l_earliest, l_latest) = (list.unique(), list.earliest(), list.latest());
+    drop(list);
+    REUSED_BUF.with(|b| b.set(buf));
     let got_json = || json!(got.iter().map(kind_json).collect::<Vec<_>>());
     let exp_json = || json!(exp.iter().map(found_json).collect::<Vec<_>>());
     tl.digest = tl.digest.wrapping_add(got.iter().fold(l as u64, |a, k| match k {
@@ -329,7 +339,7 @@ pub fn check_search(ctx: &Ctx, z: &MZone, zr: TimeZoneRef<'_>, f: &Fields, sweep
             }
             // a local time that occurs once (and is not in a gap) is reported as unique
             if en.len() == 1 && n_gap == 0 {
-                match list.unique() {
+                match l_unique {
                     Some(u) if u.unix_time() == *en[0].0 => {}
                     other => report(Prop::C05, json!({"unique": en[0].0}), json!(format!("{other:?}")), tl),
                 }
@@ -386,16 +396,16 @@ pub fn check_search(ctx: &Ctx, z: &MZone, zr: TimeZoneRef<'_>, f: &Fields, sweep
             [FoundDateTimeKind::Normal(d)] => Some(*d),
             _ => None,
         };
-        if !opt_dt_exact_eq(&list.earliest(), &first) || !opt_dt_exact_eq(&list.latest(), &last) || !opt_dt_exact_eq(&list.unique(), &uniq) {
-            report(Prop::C06, json!({"earliest": format!("{first:?}"), "latest": format!("{last:?}"), "unique": format!("{uniq:?}")}), json!({"earliest": format!("{:?}", list.earliest()), "latest": format!("{:?}", list.latest()), "unique": format!("{:?}", list.unique())}), tl);
+        if !opt_dt_exact_eq(&l_earliest, &first) || !opt_dt_exact_eq(&l_latest, &last) || !opt_dt_exact_eq(&l_unique, &uniq) {
+            report(Prop::C06, json!({"earliest": format!("{first:?}"), "latest": format!("{last:?}"), "unique": format!("{uniq:?}")}), json!({"earliest": format!("{:?}", l_earliest), "latest": format!("{:?}", l_latest), "unique": format!("{:?}", l_unique)}), tl);
         }
         // true extremes: earliest is the minimum and latest the maximum instant among everything reported
-        if let (Some(e), Some(mn)) = (list.earliest(), inst.iter().min()) {
+        if let (Some(e), Some(mn)) = (l_earliest, inst.iter().min()) {
             if e.unix_time() != *mn {
                 report(Prop::C06, json!({"earliest_instant": mn}), json!(e.unix_time()), tl);
             }
         }
-        if let (Some(e), Some(mx)) = (list.latest(), inst.iter().max()) {
+        if let (Some(e), Some(mx)) = (l_latest, inst.iter().max()) {
             if e.unix_time() != *mx {
                 report(Prop::C06, json!({"latest_instant": mx}), json!(e.unix_time()), tl);
             }
@@ -447,9 +457,14 @@ fn check_buffers(ctx: &Ctx, zr: TimeZoneRef<'_>, f: &Fields, reference_n: &[Foun
     }
     let k = reference.len();
     let stale = stale_entry();
+    // prefill: the results of the previous search of this thread (same zone, neighbouring reading - often the same instant
+    // under another spelling), padded with a marker entry
+    let prev: Vec<Option<FoundDateTimeKind>> = PREV_RESULTS.with(|p| p.borrow().clone());
+    PREV_RESULTS.with(|p| *p.borrow_mut() = reference.iter().map(|x| Some(*x)).collect());
     for n in 0..=k + 2 {
         tl.buffers += 1;
-        let mut buf: Vec<Option<FoundDateTimeKind>> = vec![stale; n];
+        let prefill: Vec<Option<FoundDateTimeKind>> = (0..n).map(|i| prev.get(i).copied().unwrap_or(stale)).collect();
+        let mut buf: Vec<Option<FoundDateTimeKind>> = prefill.clone();
         let r = DateTime::find_n(&mut buf, f.y, f.mo, f.d, f.h, f.mi, f.s, f.ns, zr);
         let l = match r {
             Ok(l) => l,
@@ -472,7 +487,7 @@ fn check_buffers(ctx: &Ctx, zr: TimeZoneRef<'_>, f: &Fields, reference_n: &[Foun
         let (count, exhaustive, dlen) = (l.count(), l.is_exhaustive(), l.data().len());
         let (gu, ge, gl) = (format!("{:?}", l.unique().map(|d| d.unix_time())), format!("{:?}", l.earliest().map(|d| d.unix_time())), format!("{:?}", l.latest().map(|d| d.unix_time())));
         // slots beyond the reported ones untouched
-        let tail_ok = buf[m..].iter().all(|s| opt_kind_exact_eq(s, &stale));
+        let tail_ok = buf[m..].iter().zip(prefill[m..].iter()).all(|(a, b)| opt_kind_exact_eq(a, b));
         let head_ok = buf[..m].iter().zip(reference.iter()).all(|(a, b)| matches!(a, Some(x) if kind_exact_eq(x, b)));
         if !(data_ok && meta_ok && u_ok && e_ok && la_ok && tail_ok && head_ok) {
             report(
@@ -490,6 +505,18 @@ fn check_error_agreement(ctx: &Ctx, z: &MZone, zr: TimeZoneRef<'_>, f: &Fields, 
     tl.searches += 1;
     let mut b0: [Option<FoundDateTimeKind>; 0] = [];
     let mut b3 = [stale_entry(); 3];
+    for n in 1..3usize {
+        let mut bn = vec![stale_entry(); n];
+        let rn = DateTime::find_n(&mut bn, f.y, f.mo, f.d, f.h, f.mi, f.s, f.ns, zr).map(|l| l.count()).map_err(|e| err_name(&e));
+        #[cfg(feature = "tz-alloc")]
+        {
+            let ra = DateTime::find(f.y, f.mo, f.d, f.h, f.mi, f.s, f.ns, zr).map(|l| l.into_inner().len()).map_err(|e| err_name(&e));
+            if rn != ra && ctx.prop == Prop::C17 {
+                ctx.rec.violation(sweep, json!({"kind":"search_err","zone":zone_json(z),"fields":f.json()}), json!({"find": format!("{ra:?}")}), json!({"find_n": format!("{rn:?}"), "buffer_len": n}));
+            }
+        }
+        let _ = rn;
+    }
     let r0 = DateTime::find_n(&mut b0, f.y, f.mo, f.d, f.h, f.mi, f.s, f.ns, zr).map(|l| l.count()).map_err(|e| err_name(&e));
     let r3 = DateTime::find_n(&mut b3, f.y, f.mo, f.d, f.h, f.mi, f.s, f.ns, zr).map(|l| l.count()).map_err(|e| err_name(&e));
     #[cfg(feature = "tz-alloc")]
@@ -700,6 +727,68 @@ fn sweep_real_scale(ctx: &Ctx, thorough: bool) -> Tally {
     t
 }
 
+/// leap-second zones with offsets at the ends of the i32 range (count-scale vs UTC-scale bounds differ by the correction)
+fn sweep_leap_extreme(ctx: &Ctx) -> Tally {
+    let cyc = ctx.cyc;
+    let offs: [i32; 7] = [i32::MIN + 1, i32::MIN + 2, i32::MIN + 11, 0, 5, i32::MAX - 1, i32::MAX];
+    let mut real: Vec<(i64, i32)> = vec![];
+    for k in 0..27 {
+        real.push((1000 + k as i64 * (DAY28 + 7), k + 1));
+    }
+    let tables: Vec<Vec<(i64, i32)>> = vec![vec![(1000, 1)], vec![(1000, -1)], real, vec![(1000, 1), (1000 + DAY28, 2), (1000 + 2 * DAY28, 1)]];
+    let work: Vec<(usize, usize, usize)> = (0..offs.len()).flat_map(|a| (0..offs.len()).flat_map(move |b| (0..4usize).map(move |t| (a, b, t)))).collect();
+    let t = work
+        .par_iter()
+        .map(|&(a, b, ti)| {
+            let mut tl = Tally::default();
+            let r = guard(|| {
+                let mut tl = Tally::default();
+                let leaps = tables[ti].clone();
+                let last_leap = leaps[leaps.len() - 1].0;
+                for (t1, t2) in [(10_000_000i64, 11_000_000i64), (last_leap + 5_000_000, last_leap + 6_000_000), (last_leap - 10, last_leap + 10)] {
+                    for rule_kind in 0..2 {
+                        let types = tiny_types([offs[a], offs[b], 0]);
+                        let rule = if rule_kind == 1 { Some(MRule::Fixed(types[0])) } else { None };
+                        let z = MZone { trans: vec![(t1, 1), (t2, 0)], types, leaps: leaps.clone(), rule };
+                        let iz = ImplZone::from_model(&z).unwrap();
+                        let zr = match iz.zref() {
+                            Ok(r) => r,
+                            Err(_) => {
+                                tl.refused_zones += 1;
+                                continue;
+                            }
+                        };
+                        tl.zones += 1;
+                        let mut ls = vec![];
+                        for t in [t1, t2] {
+                            for o in [offs[a], offs[b]] {
+                                for d in -32..=32 {
+                                    ls.push(t + o as i64 + d);
+                                }
+                            }
+                        }
+                        ls.sort();
+                        ls.dedup();
+                        for l in ls {
+                            if let Some(f) = Fields::of_local(cyc, l, 0) {
+                                check_search(ctx, &z, zr, &f, "leap_extreme_offsets", &mut tl);
+                            }
+                        }
+                    }
+                }
+                tl
+            });
+            match r {
+                Ok(t) => tl = tl.merge(t),
+                Err(m) => ctx.rec.violation("leap_extreme_offsets", json!({"kind":"leap_extreme","a":a,"b":b,"table":ti}), json!("no panic"), json!(m)),
+            }
+            tl
+        })
+        .reduce(Tally::default, Tally::merge);
+    ctx.rec.sub("leap_extreme_offsets", t.json());
+    t
+}
+
 pub fn rule_zone(r: &RuleSpec, line: Arc<Timeline>) -> MZone {
     let (ms, md) = (crate::rule::std_type(r), crate::rule::dst_type(r));
     MZone { trans: vec![], types: vec![ms, md], leaps: vec![], rule: Some(MRule::alt_with_line(*r, ms, md, line)) }
@@ -757,7 +846,7 @@ fn sweep_rule_only(ctx: &Ctx, tabs: &Tables, years: i64, include_noninterleaving
                     zs.push((r, line, z, iz));
                     tl.zones += 1;
                 }
-                let y0 = 2001 + ((i * 7 + j * 3) as i64 % 13) * 28;
+                let y0 = 2001 + ((i * 7 + j * 3) as i64 % 10) * 28;
                 let mut ls = vec![];
                 for y in y0..y0 + years {
                     for (r, line, z, iz) in &zs {
@@ -889,12 +978,16 @@ fn sweep_errors(ctx: &Ctx) -> Tally {
     let r = RuleSpec { std_off: -18000, dst_off: -14400, start: Day::M(3, 2, 0), start_time: 7200, end: Day::M(11, 1, 0), end_time: 7200 };
     let alt_zone = MZone { trans: vec![], types: vec![crate::rule::std_type(&r), crate::rule::dst_type(&r)], leaps: vec![], rule: Some(MRule::alt(cyc, r, crate::rule::std_type(&r), crate::rule::dst_type(&r))) };
     let plain = MZone { trans: vec![], types: tiny_types([0, 0, 0]), leaps: vec![], rule: None };
-    for z in [&us, &alt_zone, &plain] {
+    // forward gaps straddling the ends of the supported range (building the gap entry itself can fail)
+    let hi = MZone { trans: vec![(MAX_UNIX_TIME - 2399, 1), (MAX_UNIX_TIME - 100, 0)], types: tiny_types([0, 3600, 0]), leaps: vec![], rule: None };
+    let hi2 = MZone { trans: vec![(MAX_UNIX_TIME - 5000, 0), (MAX_UNIX_TIME - 2399, 1), (MAX_UNIX_TIME - 100, 0)], types: tiny_types([0, 3600, 0]), leaps: vec![], rule: Some(MRule::Fixed(MType::new(0, false, Some("AAA")))) };
+    let lo = MZone { trans: vec![(MIN_UNIX_TIME + 100, 1), (MIN_UNIX_TIME + 5000, 0)], types: tiny_types([-3600, 0, 0]), leaps: vec![], rule: None };
+    for z in [&us, &alt_zone, &plain, &hi, &hi2, &lo] {
         let iz = ImplZone::from_model(z).unwrap();
         let zr = iz.zref().unwrap();
         for y in [i32::MIN, i32::MIN + 1, i32::MIN + 2, -1, 0, 1970, 2023, i32::MAX - 2, i32::MAX - 1, i32::MAX] {
             for (mo, d) in [(0u8, 1u8), (1, 0), (1, 1), (2, 29), (2, 30), (4, 31), (12, 31), (13, 1), (12, 32)] {
-                for (h, mi, s) in [(0u8, 0u8, 0u8), (23, 59, 60), (24, 0, 0), (0, 60, 0), (0, 0, 61)] {
+                for (h, mi, s) in [(0u8, 0u8, 0u8), (0, 0, 30), (0, 30, 0), (23, 0, 0), (23, 30, 0), (23, 59, 59), (23, 59, 60), (24, 0, 0), (0, 60, 0), (0, 0, 61)] {
                     for ns in [0u32, 999_999_999, 1_000_000_000] {
                         let f = Fields { y, mo, d, h, mi, s, ns };
                         if let Err(m) = guard(|| check_error_agreement(ctx, z, zr, &f, "error_agreement", &mut tl)) {
@@ -934,6 +1027,8 @@ pub fn run_sweeps(ctx: &Ctx, tabs: &Tables, thorough: bool, light: bool) -> Tall
     }
     // 2. real scale
     total = total.merge(sweep_real_scale(ctx, thorough));
+    // 2b. leap seconds x offsets at the ends of the i32 range
+    total = total.merge(sweep_leap_extreme(ctx));
     // 3. rule only
     total = total.merge(sweep_rule_only(ctx, tabs, if thorough { 120 } else if light { 6 } else { 30 }, false, "rule_only"));
     // 3b. non-interleaving accepted rules (keeps KF2 observable; any other failure mode is a violation)
